@@ -221,7 +221,21 @@ func (w *World) AskOnce(ctx context.Context, ep Endpoint, to, ch, reqLen, mtu in
 		case truncated:
 			res.Violate(w.step(), "ask-truncated-success", "Ask %d returned n=%d bytes and a nil error although its handler produced %d bytes (buffer %d): a truncated success", rec.ID, n, rec.HandlerRet[0], rec.BufLen).With("stack", w.Spec)
 		default:
-			res.Violate(w.step(), "ask-wrong-answer", "Ask %d returned %d bytes that are not what its handler produced for this request: %s", rec.ID, n, w.describeAnswer(rec)).With("stack", w.Spec)
+			// is it a byte-wise blend of the outputs of several invocations for this
+			// very request (the request was duplicated and served more than once, and
+			// the parts of the replies were combined)?
+			blend := rec.Served >= 2
+			for j := 0; j < len(rec.Got) && blend; j++ {
+				ok := false
+				for i, hr := range rec.HandlerResp {
+					if rec.HandlerRet[i] >= 0 && len(hr) == len(rec.Got) && hr[j] == rec.Got[j] {
+						ok = true
+					}
+				}
+				blend = ok
+			}
+			res.Violate(w.step(), "ask-wrong-answer", "Ask %d returned %d bytes that are not what its handler produced for this request: %s", rec.ID, n, w.describeAnswer(rec)).With("stack", w.Spec).
+				With("blendOfDuplicateInvocations", blend)
 		}
 	}
 	return rec
